@@ -125,6 +125,9 @@ RULES += [
     {"_extra": [["lib.yaml", [{"name": "@imm", "pattern": "mov"}]]], "pattern": ["@imm", "add"]},
     {"_extra": [["lib.yaml", [{"name": "@imm", "pattern": "xor"}]]], "pattern": ["@imm", "xor"]},
     {"_extra": [["regs.yaml", [{"name": "@x", "pattern": "mov"}]]], "pattern": ["@x", "@y"]},   # @y undefined: must fail every time
+    # a config that is rejected (sections must be a list) after its first option was already read: must fail every time and
+    # must not change what the next operation sees
+    {"config": {"mnemonics-full-match": False, "sections": ".text"}, "pattern": ["mov"]},
     # rule text with YAML scalars whose reading depends on the loader (unquoted hex / octal-looking / boolean-looking names)
     {"_yaml": "pattern:\n  - mov: [0x28, '%rbx']\n  - add: [010, yes]\n"},
 ]
@@ -324,7 +327,12 @@ with tempfile.TemporaryDirectory(prefix="jasmverif_") as d:
                 mpaths.append(mp)
         try:
             m = MasterOfPuppets(MatchConfig(pattern_pathstr=p, input_file=a, return_mode=MatchingReturnMode.matched_addrs_list, matching_mode=MatchingSearchMode.all_finds, macros=mpaths))
-            out.append([m.regex_rule, m.perform_matching()])
+            full = m.perform_matching()
+            m2 = MasterOfPuppets(MatchConfig(pattern_pathstr=p, input_file=a, return_only_address=True, return_mode=MatchingReturnMode.matched_addrs_list, matching_mode=MatchingSearchMode.all_finds, macros=mpaths))
+            addrs = m2.perform_matching()
+            m3 = MasterOfPuppets(MatchConfig(pattern_pathstr=p, input_file=a, return_mode=MatchingReturnMode.matched_addrs_list, matching_mode=MatchingSearchMode.first_find, macros=mpaths))
+            first = m3.perform_matching()
+            out.append([m.regex_rule, full, addrs, first])
         except Exception as e:
             out.append(["EXC", type(e).__name__ + ": " + str(e)])
 print("RESULT " + json.dumps(out))
@@ -403,12 +411,21 @@ def inventory_and_pairs(run):
     # pairwise histories vs fresh process
     n = len(RULES)
     fresh = [run_ops([k])[0] for k in range(n)]
+    # the three ways of asking within ONE operation agree (what a result cache keyed too coarsely would break)
+    for k, fr in enumerate(fresh):
+        if fr[0] == "EXC":
+            continue
+        _rx, full, addrs, first = fr
+        run.count("traces_validated_against_impl")
+        if addrs != [x.split("::", 1)[0] for x in full] or first != full[:1]:
+            run.failure("history/MODES-WITHIN-OPERATION", f"rule {k}: full texts {full}, addresses-only {addrs}, first-match {first} asked one after the other in one process disagree", {"kind": "history", "seq": [k], "rules": RULES})
     bad = 0
     import concurrent.futures as cf
 
     seqs = [[i, j] for i in range(n) for j in range(n)]
     triples = [[i, j, i] for i in range(n) for j in range(n) if i != j]
-    seqs += triples[:: (7 if tier() == "quick" else 1)]
+    failing = [k for k in range(n) if fresh[k][0] == "EXC"]
+    seqs += [t for idx, t in enumerate(triples) if idx % (7 if tier() == "quick" else 1) == 0 or t[1] in failing]  # A, failing B, A: always
     # the input file changes (same path, same size, same mtime) between two operations with the same rule
     fresh_b = {k: run_ops([[k, 1]])[0] for k in (0, 3, 5, 6)}
     seqs_b = [[[k, v0], [k, v1]] for k in fresh_b for v0, v1 in ((0, 1), (1, 0))] + [[[k, 0], [k, 1], [k, 0]] for k in fresh_b]
